@@ -606,7 +606,7 @@ class C08Check(PCheck):
 
     def budgets(self, tier):
         if tier == 'thorough':
-            return {'runs': 6000, 'determinism': 60, 'wall': 3300, 'workers': 32}
+            return {'runs': 14000, 'determinism': 60, 'wall': 3400, 'workers': 32}
         return {'runs': 260, 'determinism': 12, 'wall': 1800, 'workers': 32}
 
     def generate(self, rng, run_index, tier):
@@ -643,7 +643,7 @@ class C03Check(PCheck):
 
     def budgets(self, tier):
         if tier == 'thorough':
-            return {'runs': 6000, 'determinism': 60, 'wall': 3300, 'workers': 32}
+            return {'runs': 14000, 'determinism': 60, 'wall': 3400, 'workers': 32}
         return {'runs': 260, 'determinism': 12, 'wall': 1800, 'workers': 32}
 
 
@@ -667,7 +667,7 @@ class C07PCheck(PCheck):
 
     def budgets(self, tier):
         if tier == 'thorough':
-            return {'runs': 5000, 'determinism': 40, 'wall': 3000, 'workers': 32}
+            return {'runs': 12000, 'determinism': 40, 'wall': 3400, 'workers': 32}
         return {'runs': 300, 'determinism': 10, 'wall': 1800, 'workers': 32}
 
     def execute(self, scenario):
@@ -723,7 +723,7 @@ class C02PCheck(PCheck):
 
     def budgets(self, tier):
         if tier == 'thorough':
-            return {'runs': 3000, 'determinism': 30, 'wall': 2400, 'workers': 32}
+            return {'runs': 8000, 'determinism': 30, 'wall': 3400, 'workers': 32}
         return {'runs': 200, 'determinism': 8, 'wall': 600, 'workers': 32}
 
 
@@ -874,7 +874,7 @@ class C11Check(PCheck):
 
     def budgets(self, tier):
         if tier == 'thorough':
-            return {'runs': 1500, 'determinism': 16, 'wall': 3300, 'workers': 12}
+            return {'runs': 5000, 'determinism': 16, 'wall': 3400, 'workers': 12}
         return {'runs': 110, 'determinism': 5, 'wall': 1800, 'workers': 12}
 
     def generate(self, rng, run_index, tier):
@@ -1063,7 +1063,7 @@ class C17Check(PCheck):
 
     def budgets(self, tier):
         if tier == 'thorough':
-            return {'runs': 6000, 'determinism': 60, 'wall': 3300, 'workers': 32}
+            return {'runs': 14000, 'determinism': 60, 'wall': 3400, 'workers': 32}
         return {'runs': 300, 'determinism': 10, 'wall': 1800, 'workers': 32}
 
 
